@@ -86,7 +86,7 @@ class Recorder(object):
             kw = {}
             if 'breaking' in spec:
                 kw['is_breaking'] = spec['breaking']
-            e = cls(msg, **kw)
+            e = cls(detail=msg, **kw)
         else:
             e = EXC_TYPES[kind](msg)
         self.raised.setdefault(self.seq, []).append(e)
@@ -229,3 +229,133 @@ def make_mw_type(key, unique, reorderable, funcs, wsgi=False):
         _TYPE_CACHE.clear()
     _TYPE_CACHE[ck] = cls
     return cls
+
+
+# ---------------------------------------------------------------------------
+# Reference onion interpreter (shared by C03 / C08 / C02): written from the
+# property text, independent of sinter.  It mirrors the *labels* RT hands out
+# (one per object created by harness code, in creation order), so comparing
+# traces also compares the identity of everything that flows through next().
+
+class ModelRaised(Exception):
+    def __init__(self, label, kind, breaking=True):
+        self.label, self.kind, self.breaking = label, kind, breaking
+
+
+class OnionModel(object):
+    """fn: {'request': [names], 'endpoint': [names], 'render': [names]} outermost first;
+    faults: {function name: spec}; ep_value: what EP returns by default ('dict'|'resp'|...)."""
+
+    def __init__(self, fn, faults, ep_value='dict', has_render=True):
+        self.fn, self.faults, self.ep_value, self.has_render = fn, faults, ep_value, has_render
+        self.trace = []
+        self.n = 0
+
+    def new(self, hint):
+        self.n += 1
+        return '%s#%d' % (hint, self.n)
+
+    def exc(self, spec, who):
+        kind = spec.get('exc', 'Boom')
+        lab = self.new('exc:' + kind)
+        self.trace.append('!%s %s' % (who, lab))
+        raise ModelRaised(lab, kind, spec.get('breaking', True))
+
+    def value(self, spec, who):
+        v = spec.get('value', 'resp')
+        if v == 'resp':
+            return ('resp', self.new('resp:' + who), who, spec.get('status', 200))
+        if v.startswith('http:'):
+            return ('http', self.new('exc:' + v), v[5:], spec.get('breaking', True))
+        if v == 'dict':
+            return ('ctx', self.new('ctx:' + who), who, None)
+        if v == 'list':
+            return ('nonresp', self.new('list:' + who), who, None)
+        return ('nonresp', {'str': repr('a-string-from-%s' % who), 'none': 'None', 'number': '42',
+                            'bytes': repr(b'bytes')}[v], who, None)
+
+    def layers(self, names, inner):
+        if not names:
+            return inner()
+        name, rest = names[0], names[1:]
+        spec = self.faults.get(name) or {'beh': 'pass'}
+        beh = spec['beh']
+        self.trace.append('>' + name)
+        if beh == 'raise_before':
+            self.exc(spec, name)
+        if beh == 'return_early':
+            r = self.value(spec, name)
+            self.trace.append('<%s %s' % (name, r[1]))
+            return r
+        try:
+            r = self.layers(rest, inner)
+        except ModelRaised as e:
+            self.trace.append('x%s %s' % (name, e.label))
+            if beh == 'swallow':
+                r = self.value(spec, name)
+                self.trace.append('<%s %s' % (name, r[1]))
+                return r
+            raise
+        if beh == 'raise_after':
+            self.exc(spec, name)
+        if beh == 'replace_after':
+            r = self.value(spec, name)
+        self.trace.append('<%s %s' % (name, r[1]))
+        return r
+
+    def leaf(self, name, default_value):
+        self.trace.append('>' + name)
+        spec = self.faults.get(name) or {'beh': 'pass'}
+        if spec['beh'] in ('raise', 'raise_before'):
+            self.exc(spec, name)
+        if spec['beh'] != 'return' and isinstance(default_value, tuple):
+            r = default_value      # a carried value (the catch-all route hands back the last error)
+        else:
+            r = self.value(spec if spec['beh'] == 'return' else {'value': default_value}, name)
+        self.trace.append('<%s %s' % (name, r[1]))
+        return r
+
+    def run(self):
+        """-> (trace, final) with final = ('value', v) | ('raised', kind)."""
+        fn = self.fn
+
+        def process_request():
+            ctx = self.layers(fn['endpoint'], lambda: self.leaf('EP', self.ep_value))
+            if ctx[0] in ('resp', 'http'):
+                return ctx      # a Response from the endpoint side: render and its middlewares are skipped
+            if self.has_render:
+                return self.layers(fn['render'], lambda: self.leaf('RN', 'resp'))
+            return self.layers(fn['render'], lambda: ctx)   # no render function: the context passes unchanged
+        try:
+            out = self.layers(fn['request'], process_request)
+        except ModelRaised as e:
+            return self.trace, ('raised', e.kind, e.breaking)
+        return self.trace, ('value', out)
+
+
+def dispatch_outcome(route_fn, app_fn, faults, ep_value, has_render):
+    """Outcome of one request to a single-route application, per the property:
+    the route's chain; if it ends in a NON-BREAKING HTTP error the catch-all
+    route is tried, which runs the application-level middlewares (same faults)
+    around an endpoint that hands back the most recent error.
+    -> ('status-of-resp', status) | ('http', class name) | ('uncaught', 'injected'|'TypeError')"""
+    _, final = OnionModel(route_fn, faults, ep_value, has_render).run()
+    for _ in range(2):
+        if final[0] == 'raised':
+            if not final[1].startswith('http:'):
+                return ('uncaught', 'injected')
+            carried, breaking = ('http', 'carried', final[1][5:], final[2]), final[2]
+        else:
+            v = final[1]
+            if v[0] == 'resp':
+                return ('resp', v[3])
+            if v[0] != 'http':
+                return ('uncaught', 'TypeError')
+            carried, breaking = v, v[3]
+        if breaking or app_fn is None:
+            return ('http', carried[2])
+        nfaults = dict((k, v) for k, v in faults.items() if k not in ('EP', 'RN'))
+        m = OnionModel(app_fn, nfaults, carried, False)
+        _, final = m.run()
+        app_fn = None
+    raise AssertionError('unreachable')
